@@ -24,7 +24,7 @@ use microscpi::parser::{parse, ParseError};
 use microscpi::{Node, Value};
 
 #[derive(Clone, Copy, Debug, PartialEq)]
-enum V {
+pub enum V {
     /// consumed bytes, digest of the call (0 = no call)
     Ok(usize, u64),
     Incomplete,
@@ -43,7 +43,7 @@ fn value_digest(h: u64, v: &Value) -> u64 {
     }
 }
 
-fn verdict(root: &'static Node, start: &'static Node, input: &[u8]) -> V {
+pub fn verdict(root: &'static Node, start: &'static Node, input: &[u8]) -> V {
     match parse(root, start, input) {
         Ok((rem, call)) => {
             let consumed = input.len() - rem.len();
